@@ -5807,7 +5807,7 @@ class Query(object):
             for key, val in translator.fixed_param_values.items():
                 assert key in new_vars
                 if val != new_vars[key]:
-                    del database._translator_cache[query_key]
+                    database._translator_cache.pop(query_key, None)  # another thread may have removed it already
                     return None, vars.copy()
         return translator, new_vars
     def _construct_sql_and_arguments(query, limit=None, offset=None, range=None, aggr_func_name=None, aggr_func_distinct=None, sep=None):
